@@ -322,6 +322,185 @@ def subsetsBalanced : List Nat → Bool
     sensitivities are used -/
 def setUpAcceptsSubsets (useSubsetSens : Bool) (counts : List Nat) : Bool := !(!subsetsBalanced counts && !useSubsetSens)
 
+/-! ## The cached (subset) sensitivities of one object across several `set_up`s
+
+`PoissonLogLikelihoodWithLinearModelForMean.cxx`: `set_up` :187-340, `compute_sensitivities` :349-399,
+`set_total_or_subset_sensitivities` :402-435.  The members `subsensitivity_sptrs` (a vector of shared pointers) and
+`sensitivity_sptr` survive from one `set_up` to the next, and several pointers may point to the same image
+(`subsensitivity_sptrs[s] = subsensitivity_sptrs[0]`), so the model has a small heap: a pointer is an address (`Nat`),
+`heap` says which image lives there.  Images are an arbitrary type `I` with the three operations the code uses. -/
+
+/-- the operations on target images the sensitivity bookkeeping uses -/
+structure ImgOps (I : Type) where
+  /-- `get_empty_copy()` / `std::fill(begin_all(), end_all(), 0)` -/
+  zero : I
+  /-- voxel-wise `+=` -/
+  add : I → I → I
+  /-- voxel-wise `/= num_subsets` -/
+  divN : I → Nat → I
+
+/-- C `for (s = lo; s < lo + cnt; ++s) st = f s st` -/
+def forLoop {σ : Type} (f : Nat → σ → σ) : (lo cnt : Nat) → σ → σ
+  | _, 0, st => st
+  | lo, cnt + 1, st => forLoop f (lo + 1) cnt (f lo st)
+
+/-- the part of the object's state that holds the sensitivities -/
+structure SensObj (I : Type) where
+  /-- the images allocated so far (`none`: nothing at that address) -/
+  heap : Nat → Option I
+  /-- the next address `new` hands out -/
+  next : Nat
+  /-- `subsensitivity_sptrs.size()` -/
+  size : Nat
+  /-- `subsensitivity_sptrs[s]` (`none`: null pointer) -/
+  sub : Nat → Option Nat
+  /-- `sensitivity_sptr` -/
+  tot : Option Nat
+  /-- the member `recompute_sensitivity` -/
+  recompute : Bool
+
+/-- a newly constructed object (`set_defaults`: no images, `recompute_sensitivity = false`) -/
+def SensObj.fresh {I : Type} : SensObj I :=
+  { heap := fun _ => none, next := 0, size := 0, sub := fun _ => none, tot := none, recompute := false }
+
+/-- the sensitivity files on disk: the total, and one per subset -/
+structure SensFiles (I : Type) where
+  tot : Option I
+  sub : Nat → Option I
+
+def SensFiles.empty {I : Type} : SensFiles I := { tot := none, sub := fun _ => none }
+
+section Sens
+variable {I : Type}
+
+/-- `new`: a fresh address holding `v` -/
+def SensObj.alloc (o : SensObj I) (v : I) : SensObj I × Nat :=
+  ({ o with heap := fun p => if p = o.next then some v else o.heap p, next := o.next + 1 }, o.next)
+
+/-- `*p` -/
+def SensObj.deref (o : SensObj I) (p : Option Nat) : Option I := p.bind o.heap
+
+/-- `*p = f(*p)` (through a null pointer: undefined behaviour in C++; the model leaves the state alone) -/
+def SensObj.update (o : SensObj I) (p : Option Nat) (f : I → I) : SensObj I :=
+  match p with
+  | none => o
+  | some q => { o with heap := fun r => if r = q then (o.heap r).map f else o.heap r }
+
+/-- `subsensitivity_sptrs[s] = p` -/
+def SensObj.setSub (o : SensObj I) (s : Nat) (p : Option Nat) : SensObj I :=
+  { o with sub := fun t => if t = s then p else o.sub t }
+
+/-- `subsensitivity_sptrs.resize(n)` (cxx:193): elements beyond `n` are dropped, new elements are null pointers -/
+def SensObj.resize (o : SensObj I) (n : Nat) : SensObj I :=
+  { o with size := n, sub := fun s => if s < n ∧ s < o.size then o.sub s else none }
+
+/-- what `get_subset_sensitivity(s)` / `get_sensitivity()` return -/
+def SensObj.getSub (o : SensObj I) (s : Nat) : Option I := o.deref (o.sub s)
+def SensObj.getTot (o : SensObj I) : Option I := o.deref o.tot
+
+/-- `set_total_or_subset_sensitivities` (cxx:402-435) -/
+def setTotalOrSubset (ops : ImgOps I) (useSub : Bool) (n : Nat) (o : SensObj I) : SensObj I :=
+  if useSub then
+    match o.deref (o.sub 0) with
+    | none => o
+    | some v0 =>
+      -- `sensitivity_sptr.reset(subsensitivity_sptrs[0]->clone())`, then the other subsets are added
+      let o := { (o.alloc v0).1 with tot := some (o.alloc v0).2 }
+      forLoop (fun s o =>
+        match o.deref (o.sub s) with
+        | some v => o.update o.tot (fun a => ops.add a v)
+        | none => o) 1 (n - 1) o
+  else
+    match o.deref o.tot with
+    | none => o
+    | some vt =>
+      -- `subsensitivity_sptrs[0].reset(sensitivity_sptr->clone())`, divided by `num_subsets`; all other pointers the same
+      let o := ((o.alloc vt).1).setSub 0 (some (o.alloc vt).2)
+      let o := o.update (o.sub 0) (fun a => ops.divN a n)
+      forLoop (fun s o => o.setSub s (o.sub 0)) 1 (n - 1) o
+
+/-- `compute_sensitivities` (cxx:349-399); `inc s` = what `add_subset_sensitivity(image, s)` adds to the image: the
+    back projection of the efficiencies over subset `s` (`sens` above).  `set_up` has put a new image into
+    `subsensitivity_sptrs[0]` before the call ("preallocate one such that compute_sensitivities knows the size") -/
+def computeSensitivities (ops : ImgOps I) (useSub : Bool) (n : Nat) (inc : Nat → I) (o : SensObj I) : SensObj I :=
+  let o := forLoop (fun s o =>
+      let o :=
+        if s = 0 then o.update (o.sub 0) (fun _ => ops.zero)                   -- `std::fill(…, 0)`
+        else if useSub then
+          match o.deref (o.sub 0) with                                          -- `reset(subsensitivity_sptrs[0]->get_empty_copy())`
+          | some _ => ((o.alloc ops.zero).1).setSub s (some (o.alloc ops.zero).2)
+          | none => o
+        else o.setSub s (o.sub 0)                                               -- the same image: everything accumulates in subset 0's
+      o.update (o.sub s) (fun a => ops.add a (inc s))) 0 n o                    -- `add_subset_sensitivity(*subsensitivity_sptrs[s], s)`
+  -- "copy full sensitivity (currently stored in subsensitivity[0])"
+  let o := if useSub then o else { (o.setSub 0 none) with tot := o.sub 0 }
+  setTotalOrSubset ops useSub n o
+
+/-- what the caller has configured before `set_up`, as far as the sensitivities are concerned -/
+structure SensCfg where
+  useSub : Bool           -- use_subset_sensitivities
+  n : Nat                 -- num_subsets
+  totName : Bool          -- `sensitivity_filename` is not empty (the special name "1" is not modelled)
+  subName : Bool          -- `subsensitivity_filenames` is not empty
+  /-- `set_up_before_sensitivity` succeeds and the subsets are balanced or subset sensitivities are used (cxx:268-281;
+      `setUpAcceptsSubsets` above) -/
+  accepted : Bool
+
+/-- the sensitivity part of `PoissonLogLikelihoodWithLinearModelForMean::set_up` (cxx:187-340) on an object in ANY state
+    (new, or left by earlier `set_up`s) with the files found on disk.  Result: `Succeeded::yes`?, the object, the files -/
+def setUpSens (ops : ImgOps I) (c : SensCfg) (inc : Nat → I) (o : SensObj I) (files : SensFiles I) :
+    Bool × SensObj I × SensFiles I :=
+  let o := o.resize c.n
+  -- cxx:195-204: nothing to read → compute
+  let o := if !o.recompute && (o.sub 0).isNone && ((c.useSub && !c.subName) || (!c.useSub && !c.totName))
+           then { o with recompute := true } else o
+  -- cxx:205-266: read from file
+  let rd : Bool × SensObj I :=
+    if o.recompute then (true, o)
+    else if c.useSub then
+      if !c.subName then (false, o)
+      else
+        let r := forLoop (fun s (r : Bool × SensObj I) =>
+            if !r.1 then r else
+            match files.sub s with
+            | none => (false, r.2)                                            -- `read_from_file` throws
+            | some v => (true, ((r.2.alloc v).1).setSub s (some (r.2.alloc v).2))) 0 c.n (true, o)
+        if r.1 then (true, setTotalOrSubset ops true c.n r.2) else r
+    else
+      if !c.totName then (false, o)
+      else match files.tot with
+        | none => (false, o)
+        | some v => (true, setTotalOrSubset ops false c.n { (o.alloc v).1 with tot := some (o.alloc v).2 })
+  if !rd.1 then (false, rd.2, files)
+  else if !c.accepted then (false, rd.2, files)
+  else
+    let o := rd.2
+    if o.recompute then
+      -- cxx:283-294: "preallocate one such that compute_sensitivities knows the size"
+      let o := ((o.alloc ops.zero).1).setSub 0 (some (o.alloc ops.zero).2)
+      let o := computeSensitivities ops c.useSub c.n inc o
+      -- cxx:296-330: write to file
+      let files : SensFiles I :=
+        if c.useSub then
+          if c.subName then { files with sub := fun s => if s < c.n then o.getSub s else files.sub s } else files
+        else
+          if c.totName then { files with tot := o.getTot } else files
+      (true, o, files)
+    else (true, o, files)
+
+/-- closed form of what `compute_sensitivities` leaves in `sensitivity_sptr` when subset sensitivities are not used: the
+    subsets accumulated one after the other into an image of zeroes -/
+def accSens (ops : ImgOps I) (inc : Nat → I) : Nat → I
+  | 0 => ops.zero
+  | k + 1 => ops.add (accSens ops inc k) (inc k)
+
+/-- closed form of the total when subset sensitivities are used: a copy of subset 0's, then subsets 1 … k added -/
+def sumSubs (ops : ImgOps I) (v : Nat → I) : Nat → I
+  | 0 => v 0
+  | k + 1 => ops.add (sumSubs ops v k) (v (k + 1))
+
+end Sens
+
 /-! ## The set-up flags -/
 
 /-- the kinds of request after `set_up` -/
